@@ -1,4 +1,7 @@
 pub mod c05;
 pub mod c06;
+pub mod c07;
+pub mod c08;
+pub mod c09;
 pub mod c28;
 pub mod qreal;
